@@ -3,6 +3,23 @@
 #   checks  (quick, thorough) total rapid cases over all shards
 #   shards  (quick, thorough)     timeout (quick, thorough) seconds per process
 CHECKS = {
+    "C06": dict(
+        pkg="p_topics", level="exploration",
+        technique="small-scope exhaustive enumeration + rapid model-based histories against an independent section-4.7 matcher; variant-oracle signatures for known findings",
+        level_text=("Exhaustive: all 780 filter strings of 1-4 levels over {a,b,'',+,#} x all 119 names of 1-4 levels over {a,b,''} x publish QoS x subscription QoS on a fresh provider, plus all "
+                    "ordered pairs of valid filters of <= 3 levels subscribed by two subscribers with one removed and one re-subscribed; random histories of subscribe / re-subscribe / "
+                    "unsubscribe / invalid filter / retain / clear with 3-6 subscribers, compared after every operation on a probe set of names and filters with a map model using the reference "
+                    "matcher. Complete for the stated small scope, sampling beyond it."),
+        level_note=("Trusted: harness/ref/match (written from section 4.7, cross-checked against a second formulation over the whole small scope) and the map model. Only Subscribe's return value "
+                    "is asserted; names/filters starting with '$' are never generated. Known findings are excluded by variant oracles that reproduce exactly the recorded wrong behaviour."),
+        rule=("unit exhaustive: enumerated (filter, name, pq, sq) and pair scenarios, distinct by construction, non-trivial = the filter contains a wildcard or an empty level; unit histories: "
+              "rapid-generated op lists, non-trivial = an effective unsubscribe or QoS replacement whose filter matches a probe name, distinct = FNV-64 of the history JSON"),
+        assumptions=["subscriber identities are distinct pointers", "order of reported subscribers / retained messages is not asserted"],
+        units=[
+            dict(name="exhaustive", test="TestExhaustive", kind="enum", shards=(4, 14)),
+            dict(name="histories", test="TestHistories", checks=(3000, 300000), shards=(4, 14), timeout=(240, 3000)),
+        ]),
+
     "C13": dict(
         pkg="p_ackq", level="exploration",
         technique="model-based property testing: small-scope exhaustive enumeration + rapid random histories against a list model",
